@@ -1,5 +1,6 @@
 import re
 from copy import deepcopy
+from fractions import Fraction
 
 from .base import (
     BaseReader, BaseWriter, CaptionSet, CaptionList, Caption, CaptionNode,
@@ -67,7 +68,7 @@ class MicroDVDReader(BaseReader):
         return caption_set
 
     def _framestomicro(self, framenum, fps=25.0):
-        return int(framenum * (10 ** 6) / fps)
+        return int(framenum * (10 ** 6) / Fraction(str(fps)))
 
 
 class MicroDVDWriter(BaseWriter):
